@@ -105,6 +105,7 @@ class BlockChain(object):
             return
         excluded: set[Any] = set()
         the_hash: Any = None
+        newly_locked: list[Any] = []
         for idx in range(index):
             the_hash = longest_chain[-idx - 1]
             parent_hash = (
@@ -112,12 +113,13 @@ class BlockChain(object):
             )
             weight = self.weight_lookup.get(the_hash)
             item = (the_hash, parent_hash, weight)
-            self._locked_chain.append(item)
+            newly_locked.append(item)
             excluded.add(the_hash)
         if self.did_lock_to_index_f:
-            self.did_lock_to_index_f(
-                self._locked_chain[old_length : old_length + index], old_length
-            )
+            # hand the entries over before touching any state: if storing them fails,
+            # the lock has not happened
+            self.did_lock_to_index_f(newly_locked, old_length)
+        self._locked_chain.extend(newly_locked)
         old_chain_finder = self.chain_finder
         self.chain_finder = ChainFinder()
         # keep reporting the same chain: recomputing could pick another chain of equal
